@@ -678,7 +678,7 @@ func main() {
 			runOne(k)
 		}
 	}
-	n := e.N(900, 25000)
+	n := e.N(600, 25000)
 	for i := 0; i < n; i++ {
 		k := kase{Seed: master.U64(), Max: hx.Pick(master, []int{0, 1, 2, 3, 6, 12, 24, 48, 64})}
 		switch master.Intn(10) {
